@@ -244,6 +244,13 @@ class StartStageHandler(
                         "details": {"error": error_str},
                     }
                     fresh_stage.context["beforeStagePlanningFailed"] = True
+                    # Fail the stage here: CompleteStage derives the outcome from
+                    # the tasks, and a stage whose planning failed still has its
+                    # tasks NOT_STARTED - it would be taken for "still in flight",
+                    # the message dropped and the stage left RUNNING forever.
+                    if not fresh_stage.status.is_complete:
+                        self.set_stage_status(fresh_stage, WorkflowStatus.TERMINAL)
+                        fresh_stage.end_time = self.current_time_millis()
 
                     # Atomic: store stage + push CompleteStage together
                     with self.repository.transaction(self.queue) as txn:
